@@ -19,6 +19,7 @@ real powers) scale as stated. Partial: 1e-9 accuracy of floats.
 This file restates the theorems the property rests on (full statements; proofs are in PGProofs/).
 Generated once by harness/mkprops.py from harness/props_table.py + PGProperties/extra/C09.lean.in; committed as source.
 -/
+import PGProofs.Corollaries
 import PGProofs.VanLoan
 import PGProofs.RatesThm
 
@@ -27,6 +28,24 @@ set_option pp.fieldNotation.generalized false
 
 namespace PG.C09
 open PG
+
+/-- HEADLINE: on the BFS graphs the code builds, time scales times c and migration rates divided by c multiply every k-th moment by c^k (durations times c) -/
+theorem code_moments_rescale : ∀ {K : Type} [inst : Field K] [inst_1 : LinearOrder K] [inst_2 : IsStrictOrderedRing K] {k D : ℕ} {m : Model} {cinit : Fin D → ℕ} {ts ts' : ℕ → Fin D → ℚ} {mig mig' : ℕ → Fin D → Fin D → ℚ} {r r' : ℕ → ℚ} {fuel fuel' : ℕ → ℕ} {G G' : ℕ → Graph} (L : ExpLaw K) (c : ℚ), c ≠ 0 → (∀ (e : ℕ) (d : Fin D), ts' e d = c * ts e d) → (∀ (e : ℕ) (a b : Fin D), mig' e a b = mig e a b / c) → (∀ (e : ℕ), bfs (transit m (mkEpoch (ts e) (mig e) (r e))) (encLC cinit) (fuel e) = some (G e)) → (∀ (e : ℕ), bfs (transit m (mkEpoch (ts' e) (mig' e) (r' e))) (encLC cinit) (fuel' e) = some (G' e)) → ∀ (R : Fin k → Fin (List.length (G 0).visited) → K) (α : Fin (List.length (G 0).visited) → K) (fs : List (ℕ × K)), accumVal L (fun e ↦ Matrix.map (Corollaries.codeMatOn G G' e) fun q ↦ ↑q) R α (List.map (fun f ↦ (f.1, ↑c * f.2)) fs) = ↑c ^ k * accumVal L (fun e ↦ Matrix.map (Assembly.codeMat G e) fun q ↦ ↑q) R α fs := @PG.Corollaries.C09_lineage_moments
+
+/-- and leave the cdf unchanged -/
+theorem code_cdf_rescale : ∀ {K : Type} [inst : Field K] [inst_1 : LinearOrder K] [inst_2 : IsStrictOrderedRing K] {D : ℕ} {m : Model} {cinit : Fin D → ℕ} {ts ts' : ℕ → Fin D → ℚ} {mig mig' : ℕ → Fin D → Fin D → ℚ} {r r' : ℕ → ℚ} {fuel fuel' : ℕ → ℕ} {G G' : ℕ → Graph} (L : ExpLaw K) (c : ℚ), c ≠ 0 → (∀ (e : ℕ) (d : Fin D), ts' e d = c * ts e d) → (∀ (e : ℕ) (a b : Fin D), mig' e a b = mig e a b / c) → (∀ (e : ℕ), bfs (transit m (mkEpoch (ts e) (mig e) (r e))) (encLC cinit) (fuel e) = some (G e)) → (∀ (e : ℕ), bfs (transit m (mkEpoch (ts' e) (mig' e) (r' e))) (encLC cinit) (fuel' e) = some (G' e)) → ∀ (α exitVec : Fin (List.length (G 0).visited) → K) (fs : List (ℕ × K)), cdfVal L (fun e ↦ Matrix.map (Corollaries.codeMatOn G G' e) fun q ↦ ↑q) α exitVec (List.map (fun f ↦ (f.1, ↑c * f.2)) fs) = cdfVal L (fun e ↦ Matrix.map (Assembly.codeMat G e) fun q ↦ ↑q) α exitVec fs := @PG.Corollaries.C09_lineage_cdf
+
+/-- the code model transit scales by 1/c (lineage counting) -/
+theorem transit_rescale_lineage : ∀ {D : ℕ} (m : Model) (ts ts' : Fin D → ℚ) (mig mig' : Fin D → Fin D → ℚ) (r r' c : ℚ), (∀ (d : Fin D), ts' d = c * ts d) → (∀ (a b : Fin D), mig' a b = mig a b / c) → ∀ (x : Fin D → ℕ) (g : State → ℚ), genOf (transit m (mkEpoch ts' mig' r') (encLC x)) g (encLC x) = c⁻¹ * genOf (transit m (mkEpoch ts mig r) (encLC x)) g (encLC x) := @PG.Corollaries.genOf_transit_lineage_rescale
+
+/-- block counting -/
+theorem transit_rescale_block : ∀ {D n : ℕ} [NeZero n] (m : Model) (ts ts' : Fin D → ℚ) (mig mig' : Fin D → Fin D → ℚ) (r r' c : ℚ), (∀ (d : Fin D), ts' d = c * ts d) → (∀ (a b : Fin D), mig' a b = mig a b / c) → ∀ (x : Fin D × Fin n → ℕ), 2 ≤ n → massBC x ≤ n → ∀ (g : State → ℚ), genOf (transit m (mkEpoch ts' mig' r') (encBC x)) g (encBC x) = c⁻¹ * genOf (transit m (mkEpoch ts mig r) (encBC x)) g (encBC x) := @PG.Corollaries.genOf_transit_block_rescale
+
+/-- two loci (recombination rate divided by c) -/
+theorem transit_rescale_two_locus : ∀ {D : ℕ} (ts ts' : Fin D → ℚ) (mig mig' : Fin D → Fin D → ℚ) (r r' c : ℚ), (∀ (d : Fin D), ts' d = c * ts d) → (∀ (a b : Fin D), mig' a b = mig a b / c) → r' = r / c → ∀ (x : Fin D × LCls → ℕ) (g : State → ℚ), genOf (transit Model.kingman (mkEpoch ts' mig' r') (enc2 x)) g (enc2 x) = c⁻¹ * genOf (transit Model.kingman (mkEpoch ts mig r) (enc2 x)) g (enc2 x) := @PG.Corollaries.genOf_transit_two_locus_rescale
+
+/-- all population sizes times a: generators divided by the model time factor (a, or a^2 for Dirac) -/
+theorem popsize_rescale : ∀ {D : ℕ} (m : Model) (a : ℚ) (N ts ts' : Fin D → ℚ), (∀ (d : Fin D), timescaleRat m (N d) = some (ts d)) → (∀ (d : Fin D), timescaleRat m (a * N d) = some (ts' d)) → ∀ (mig mig' : Fin D → Fin D → ℚ) (r r' : ℚ), (∀ (x y : Fin D), mig' x y = mig x y / Corollaries.timeFactor m a) → ∀ (x : Fin D → ℕ) (g : State → ℚ), genOf (transit m (mkEpoch ts' mig' r') (encLC x)) g (encLC x) = (Corollaries.timeFactor m a)⁻¹ * genOf (transit m (mkEpoch ts mig r) (encLC x)) g (encLC x) := @PG.Corollaries.genOf_transit_lineage_popsize_rescale
 
 /-- time unit change by c: k-th moment times c^k -/
 theorem moment_rescale : ∀ {K : Type} [inst : Field K] [inst_1 : LinearOrder K] [inst_2 : IsStrictOrderedRing K] {ι : Type} [inst_3 : Fintype ι] [inst_4 : DecidableEq ι] {k : ℕ} (L : ExpLaw K) (S : ℕ → Matrix ι ι K) (R : Fin k → ι → K) (α : ι → K) (c : K), c ≠ 0 → ∀ (fs : List (ℕ × K)), accumVal L (fun e ↦ c⁻¹ • S e) R α (List.map (fun f ↦ (f.1, c * f.2)) fs) = c ^ k * accumVal L S R α fs := @PG.accumVal_time_rescale
@@ -51,6 +70,12 @@ theorem timescale_beta : ∀ (α c N : ℝ), 1 < α → 0 < c → 0 < N → beta
 
 end PG.C09
 
+#print axioms PG.C09.code_moments_rescale
+#print axioms PG.C09.code_cdf_rescale
+#print axioms PG.C09.transit_rescale_lineage
+#print axioms PG.C09.transit_rescale_block
+#print axioms PG.C09.transit_rescale_two_locus
+#print axioms PG.C09.popsize_rescale
 #print axioms PG.C09.moment_rescale
 #print axioms PG.C09.cdf_rescale
 #print axioms PG.C09.regularise
